@@ -37,10 +37,6 @@
 #include <unistd.h>
 #include <vector>
 
-#ifdef FLUID_FIXED
-#include "fixed_overrides.inc"
-#endif
-
 namespace sg4 = simgrid::s4u;
 
 struct Op {
